@@ -52,6 +52,8 @@ def run(ctx, repo):
     RX.r_block_hint_leading(ctx, repo)
     RX.r_emitter_doc_reset(ctx, repo)
     RX.r_escape_introducer(ctx, repo)
+    RX.r_fold_leading_space(ctx, repo)
+
 
 if __name__ == '__main__':
     sys.exit(report.main('C05', 'other', run))
